@@ -125,7 +125,7 @@ def stepRun (hs : HState) (op impl : String) : StepAns :=
   let status :=
     if kind == "n" then "nil"
     else if kind == "q" then "keep"
-    else if kind == "u" || kind == "w" then "ok"
+    else if kind == "u" || kind == "w" || kind == "g" then "ok"
     else if ver != "" && !needLoad hs.table.version ver then "skip"
     else if anyErr then "err" else "ok"
   -- specification: after a (successful) Update(X) exactly X is reported, whatever was loaded before
@@ -143,10 +143,20 @@ def stepRun (hs : HState) (op impl : String) : StepAns :=
      ((probes.zip implW.toList).any fun (p, c) =>
         let o := specQ hs.spec p; let n := specQ spec' p
         if o == n then c != (if o then '1' else '0') else !(c == '0' || c == '1' || c == 'm')))
+  -- Length() = number of maximal overlap-connected groups of loaded ranges + number of distinct single addresses
+  let expLen := if status == "ok" then
+      toString ((ranges.map fun r => component ranges r.1).eraseDups.length + singles.eraseDups.length) else "-"
+  -- gated swap: the previous items are installed between Search's snapshot and its use: the answer is the NEW items' answer
+  let implG := field isecs "g"
+  let gateBad := kind == "g" &&
+    (implG.length != probes.length && !(probes.isEmpty && implG == ".") ||
+     ((probes.zip implG.toList).any fun (p, c) => c != 'L' && c != (if specQ spec' p then '1' else '0')))
   let verdict :=
-    if field isecs "e" != expE || field isecs "f" != expF then "FAIL:insert-validation"
+    if impl.startsWith "hook-diverged" then "FAIL:hook-diverged"
+    else if field isecs "e" != expE || field isecs "f" != expF then "FAIL:insert-validation"
+    else if field isecs "n" != expLen then "FAIL:length"
     else if field isecs "ld" != status || field isecs "ver" != hexOfStr specVer' then "FAIL:update-status"
-    else if swapBad then "FAIL:swap-torn"
+    else if swapBad || gateBad then "FAIL:swap-torn"
     else if implQ == bits expQ then "ok"
     else if (status == "ok" || status == "nil") && implQ == bits staleQ then "FAIL:update-stale"
     else
@@ -168,10 +178,13 @@ def stepRun (hs : HState) (op impl : String) : StepAns :=
       ";w=" ++ (if probes.isEmpty then "." else String.ofList ((probes.zip ((field isecs "w").toList ++ List.replicate probes.length '?')).map fun (p, c) =>
         let o := hs.table.search p; let n := tbl.search p
         if o == n then (if o then '1' else '0') else if c == '0' || c == '1' || c == 'm' then c else '?'))
-    { model := "e=" ++ expE ++ ";f=" ++ expF ++ mid ++ ";ld=" ++ status ++ ";ver=" ++ hexOfStr tbl.version ++ w ++ ";q=" ++ bits q,
+    let g := if kind != "g" then "" else
+      ";g=" ++ (if probes.isEmpty then "." else String.ofList ((probes.zip ((field isecs "g").toList ++ List.replicate probes.length '?')).map fun (p, c) =>
+        if c == 'L' then 'L' else if tbl.search p then '1' else '0'))
+    { model := "e=" ++ expE ++ ";f=" ++ expF ++ mid ++ ";ld=" ++ status ++ ";ver=" ++ hexOfStr tbl.version ++ w ++ g ++ ";q=" ++ bits q,
       verdict := verdict,
       tags := tags ++ [if kind == "u" then "update" else if kind == "n" then "update-nil" else if kind == "q" then "probe-only"
-                       else if kind == "w" then "swap" else "file-" ++ status] ++
+                       else if kind == "w" then "swap" else if kind == "g" then "swap-gated" else "file-" ++ status] ++
               (if kind == "w" && (field isecs "w").contains 'm' then ["swap-mixed-seen"] else []) ++
               (if x2 then ["sort-twice"] else []) ++ (if metaBad then ["file-meta-negative"] else []) ++ (if short then ["file-meta-short"] else []) ++
               (if kind == "q" && hs.table.isNone then ["search-before-update"] else []),
